@@ -106,6 +106,9 @@ def check(R, tier):
         chain(R, I, tier)
     finally:
         I.models[:] = saved
+    import props.c10_units as U
+    U.from_signed(R, I, tier)
+    U.signed_role_new(R, I, tier)
     native(R, tier)
 
 def native(R, tier):
